@@ -83,6 +83,23 @@ namespace bloch::runtime {
         return {nullptr, nullptr};
     }
 
+    // An index computed as long or float is narrowed for the bounds check; one that does not fit
+    // an int must stay out of range instead of wrapping round to a valid position.
+    static int saturatingIndex(long long v) {
+        if (v > std::numeric_limits<int>::max())
+            return std::numeric_limits<int>::max();
+        if (v < std::numeric_limits<int>::min())
+            return std::numeric_limits<int>::min();
+        return static_cast<int>(v);
+    }
+    static int saturatingIndex(double v) {
+        if (!(v < 2147483647.0))
+            return std::numeric_limits<int>::max();
+        if (!(v > -2147483648.0))
+            return std::numeric_limits<int>::min();
+        return static_cast<int>(v);
+    }
+
     static bool isNullReference(const Value& v) {
         return v.type == Value::Type::Object && !v.objectValue;
     }
@@ -3219,11 +3236,11 @@ namespace bloch::runtime {
             if (idxv.type == Value::Type::Int)
                 idxi = idxv.intValue;
             else if (idxv.type == Value::Type::Long)
-                idxi = static_cast<int>(idxv.longValue);
+                idxi = saturatingIndex(static_cast<long long>(idxv.longValue));
             else if (idxv.type == Value::Type::Bit)
                 idxi = idxv.bitValue;
             else if (idxv.type == Value::Type::Float)
-                idxi = static_cast<int>(idxv.floatValue);
+                idxi = saturatingIndex(static_cast<double>(idxv.floatValue));
             else
                 throw BlochError(ErrorCategory::Runtime, indexExpr->line, indexExpr->column,
                                  "index must be numeric");
@@ -3354,11 +3371,11 @@ namespace bloch::runtime {
             if (idxv.type == Value::Type::Int)
                 i = idxv.intValue;
             else if (idxv.type == Value::Type::Long)
-                i = static_cast<int>(idxv.longValue);
+                i = saturatingIndex(static_cast<long long>(idxv.longValue));
             else if (idxv.type == Value::Type::Bit)
                 i = idxv.bitValue;
             else if (idxv.type == Value::Type::Float)
-                i = static_cast<int>(idxv.floatValue);
+                i = saturatingIndex(static_cast<double>(idxv.floatValue));
             else
                 throw BlochError(ErrorCategory::Runtime, aassign->line, aassign->column,
                                  "index must be numeric");
